@@ -18,6 +18,18 @@ CLAIMED = {
     ),
 }
 
+CLAIMED["C20"] = dict(
+    category="other",
+    text=("Clause-complete for geo's own code, by who-may-call and taint rules over every lib function (resolved callees): R20.1 enumeration of "
+          "sources (hash iteration under RandomState, pointer->integer, clocks/RNG/env/thread id, rayon, mutable globals); R20.2 hash-order / "
+          "address taint must not reach an ordered container, a tie-sensitive selection or an ordering decision (interprocedural summaries, "
+          "closure parameters); R20.3 rayon confined to the delegating indexed IntoParallelIterator impls, no clock/RNG/env call, statics "
+          "immutable except the LazyLock with a pure initialiser; R20.4 feature wiring. Not decided: scheduling inside i_overlay/rayon, rstar/spade."),
+    design_ref="DESIGN.md §4 C20",
+    note="Trusted: rustc callee resolution; dependencies pinned by Cargo.lock assumed deterministic; control dependence on hash order without data flow is not tracked; one exact-key exemption (IMSegment address tie-break, no failing input known) is listed in the evidence.",
+    technique="interprocedural taint + who-may-call over resolved MIR callees",
+)
+
 NOT_YET = "rule set not implemented in this revision of /verif (see DESIGN.md §7 build order); nothing is claimed"
 NA = {}
 
